@@ -52,6 +52,17 @@ class Report:
         self.extra = {}
         self._nrep = 0
         self.search_mode = False
+        # replay files of an earlier run with the same seed and tier would be mistaken for this run's (a replay run
+        # itself keeps them: it is given one of them)
+        d = os.path.join(VERIF, "replays", self.pid)
+        if not getattr(ctx, "replay", None) and os.path.isdir(d):
+            pre = f"{ctx.seed}-{ctx.tier}-"
+            for fn in os.listdir(d):
+                if fn.startswith(pre) and fn.endswith(".json"):
+                    try:
+                        os.remove(os.path.join(d, fn))
+                    except OSError:
+                        pass
 
     # ---- accounting
     def case(self, case, nontrivial=True, sample=False):
